@@ -52,6 +52,7 @@ def run(ctx) -> None:
     import oracles_gen
     todo = []
     for label, seed in cases(ctx, impl, rng):
+        pair = {}
         for safe in (False, True):
             api, feats = build(impl, seed)
             j = apijson.api(api)
@@ -70,6 +71,8 @@ def run(ctx) -> None:
                         "features": dict(list(feats.items())[:8])}, limit=3)
             oracles_gen.check(ctx, impl, label, safe, api, j, r, before, after)
             todo.append((label, safe, j, r))
+            pair[safe] = r
+        oracles_gen.check_flag_pair(ctx, label, pair[False], pair[True])
     if not ctx.driver_ok:
         return
     CH = 40
